@@ -415,7 +415,15 @@ fn sig_for(c: &Case, canonical: bool) -> Sig {
     if d >= 2 {
         let last = c.shape[d - 1];
         let n: usize = c.shape.iter().product();
-        let big: Vec<f64> = (0..n).map(|i| if (i % last) % 2 == 0 { 1.0e308 } else { -1.0e308 }).collect();
+        // +M at the first element of every innermost lane; the other signs are chosen greedily so that the running sum in
+        // logical order stays within [-M, M] (and every lane ends at <= 0, so the next lane's +M cannot overflow)
+        let mut big: Vec<f64> = Vec::with_capacity(n);
+        let mut t = 0i32;
+        for i in 0..n {
+            let sgn = if i % last == 0 { 1 } else if t > 0 { -1 } else if t < 0 { 1 } else { -1 };
+            t += sgn;
+            big.push(sgn as f64 * 1.0e308);
+        }
         let ones: Vec<f64> = vec![1.0; n];
         with_repr2!(kind, (&c.shape, &big, &l, 0.0), (&c.shape, &ones, &l, 0.0), |a, w| {
             {
@@ -636,7 +644,7 @@ fn compare(canon: &Sig, got: &Sig, c: &Case, lx: &mut Local) {
         };
         compared += 1;
         let ok = match (v, w) {
-            (Val::F(a), Val::F(b)) => a.len() == b.len() && a.iter().zip(b).all(|(x, y)| (x.is_nan() && y.is_nan()) || x == y || (x - y).abs() <= 1e-10 + 1e-10 * x.abs().max(y.abs())),
+            (Val::F(a), Val::F(b)) => a.len() == b.len() && a.iter().zip(b).all(|(x, y)| (x.is_nan() && y.is_nan()) || x == y || (x.is_finite() && y.is_finite() && (x - y).abs() <= 1e-10 + 1e-10 * x.abs().max(y.abs()))),
             (a, b) => a == b,
         };
         if !ok {
